@@ -6,6 +6,20 @@ import random
 from vp import pipeprops, pipe, pipemap
 
 pipemap.install()      # shape-map runs (cfg["smap"]) go through Model.RunMap / Shaper(shape_map_raw=...)
+
+_impl_other = pipe.impl_other
+
+
+def _impl_other_map(ts, cfg, kind, timeout=10.0):
+    """SHACL output of a shape-map run (implementation only)"""
+    if kind == "shacl" and pipemap.is_map(cfg):
+        from shexer.consts import SHACL_TURTLE
+        r = pipemap.impl_shexc_map(ts, cfg, timeout=timeout, output_format=SHACL_TURTLE)
+        return r[:3] if r[0] == "err" else r[:2]
+    return _impl_other(ts, cfg, kind, timeout)
+
+
+pipe.impl_other = _impl_other_map
 T = pipe.RDF_TYPE
 
 
@@ -67,7 +81,15 @@ class Spec(pipeprops.PropSpec):
             if i % 8 == 1:
                 runs.append((ts, cfg, "shexc_file"))
             cases.append({"runs": runs, "meta": {}})
-        cases += pipemap.stream(tier, rnd, 1500, 12000, or_rate=0.5)
+        mcases = pipemap.stream(tier, rnd, 1500, 12000, or_rate=0.5)
+        for j, c in enumerate(mcases):
+            if j % 3 == 0:                   # SHACL output of shape-map extractions
+                ts, cfg = c["runs"][0][0], c["runs"][0][1]
+                sc = dict(cfg)
+                sc["disable_or_statements"] = True
+                sc["allow_redundant_or"] = False
+                c["runs"].append((ts, sc, "shacl"))
+        cases += mcases
         return cases
 
     def oracle(self, case, impl):
@@ -78,6 +100,8 @@ class Spec(pipeprops.PropSpec):
                 rc = None
                 if kind == "shacl" and res[1] == "ValueError":
                     rc = "rc_shacl_value_error"
+                if kind == "shacl" and pipemap.is_map(rn[1]) and res[1] == "Exception":
+                    rc = "rc_shacl_shape_map"
                 if kind == "shexc" and res[1] == "TypeError" and not rn[1]["disable_or_statements"] and rn[1]["remove_empty_shapes"]:
                     rc = "rc_choice_prune"
                 fails.append((rc, "%s raises %s at %s" % (kind, res[1], res[2] if len(res) > 2 else "")))
